@@ -51,6 +51,18 @@ def label_names(fn, S, labels, si=None):
             else:
                 names.add(si["vars"].get(lab, str(lab)))
         return names
+    # a threaded switch (see Fn.switch_info): the outcome the short-circuit constants also produce says nothing about the
+    # computed value - it gets a name of its own so that no rule mistakes it for `false` / `true` of the predicate
+    if si.get("threaded"):
+        names = set()
+        for lab in labels:
+            is_zero = (lab == 0)
+            if lab == "else":
+                explicit = {l_ for l_ in succ_labels if l_ != "else"}
+                is_zero = 0 not in explicit
+            v = 0 if is_zero else 1
+            names.add(("false" if v == 0 else "true") + ("?" if v == si.get("weak_label") else ""))
+        return names
     # boolean-like
     names = set()
     for lab in labels:
